@@ -26,6 +26,18 @@ const A0: Attrs = Attrs { ty: 0, is_ca: false, has_bc: true, path_len: None, ku:
 static mut ATTRS: [Attrs; 3] = [A0; 3];
 /// LINK[i][j]: certificate i names certificate j's subject key as its authority key
 static mut LINK: [[bool; 3]; 3] = [[false; 3]; 3];
+/// `UtcTime::any_secs` / `reliable_secs` divide 64-bit microseconds by 10^6 (does not finish in
+/// CaDiCaL / cvc5 / z3): replaced by symbolic seconds, shared with the reference.
+static mut T_ANY: u64 = 0;
+static mut T_REL: Option<u64> = None;
+#[cfg(kani)]
+fn s_any_secs(_t: &UtcTime) -> u64 {
+    unsafe { T_ANY }
+}
+#[cfg(kani)]
+fn s_reliable_secs(_t: &UtcTime) -> Option<u64> {
+    unsafe { T_REL }
+}
 static PK: [u8; 65] = [4; 65];
 static SIG: [u8; 64] = [7; 64];
 
@@ -72,8 +84,9 @@ fn any_attrs() -> Attrs {
 }
 
 // ---- reference predicate, written from the property text -------------------------------------
-fn ref_time_ok(a: &Attrs, t: &UtcTime) -> bool {
-    (a.na == 0 || t.any_secs() <= a.na as u64) && t.reliable_secs().map(|s| s >= a.nb as u64).unwrap_or(true)
+fn ref_time_ok(a: &Attrs, _t: &UtcTime) -> bool {
+    let (any, rel) = unsafe { (T_ANY, T_REL) };
+    (a.na == 0 || any <= a.na as u64) && rel.map(|s| s >= a.nb as u64).unwrap_or(true)
 }
 /// depth = position in the chain (0 = leaf)
 fn ref_usage_ok(a: &Attrs, depth: u8) -> bool {
@@ -106,6 +119,8 @@ fn ref_usage_ok(a: &Attrs, depth: u8) -> bool {
 #[cfg_attr(kani, kani::stub(CertRef::key_usage, s_ku))]
 #[cfg_attr(kani, kani::stub(CertRef::basic_constraints, s_bc))]
 #[cfg_attr(kani, kani::stub(CertRef::ext_key_usage_has_all, s_eku))]
+#[cfg_attr(kani, kani::stub(UtcTime::any_secs, s_any_secs))]
+#[cfg_attr(kani, kani::stub(UtcTime::reliable_secs, s_reliable_secs))]
 #[cfg_attr(not(kani), test)]
 #[cfg_attr(not(kani), ignore)]
 fn c19_q_chain_decision_equals_reference() {
@@ -131,8 +146,13 @@ fn c19_q_chain_decision_equals_reference() {
     let noc = CertRef::new(TLVElement::new(&b0));
     let icac = CertRef::new(TLVElement::new(&b1));
     let root = CertRef::new(TLVElement::new(&b2));
-    let us = any_u64();
-    let time = if any_bool() { UtcTime::Reliable(us) } else { UtcTime::LastKnown(us) };
+    let secs = any_u64();
+    let reliable = any_bool();
+    unsafe {
+        T_ANY = secs;
+        T_REL = if reliable { Some(secs) } else { None };
+    }
+    let time = if reliable { UtcTime::Reliable(0) } else { UtcTime::LastKnown(0) };
     let mut buf = [0u8; 8];
     let r = if with_icac {
         noc.verify_chain_start(VerifCrypto, time)
@@ -164,7 +184,8 @@ fn c19_q_chain_decision_equals_reference() {
         vassert!(!a.crit && !rt.crit && (!with_icac || !ic.crit), "ROLE:unknown-critical-extension-rejected");
         vassert!(link[2][2], "ROLE:root-must-verify-against-itself");
         vassert!(sig[0] && sig[1] && (!with_icac || sig[2]), "ROLE:every-signature-checked");
-        vassert!(a.na == 0 || time.any_secs() <= a.na as u64, "ROLE:expired-leaf-rejected");
+        vassert!(a.na == 0 || secs <= a.na as u64, "ROLE:expired-leaf-rejected");
+        vassert!(!reliable || secs >= a.nb as u64, "ROLE:not-yet-valid-leaf-rejected(reliable time)");
         if with_icac {
             vassert!(ic.is_ca && ic.ty != 0, "ROLE:intermediate-is-CA");
             vassert!(rt.path_len.map(|p| p >= 1).unwrap_or(true), "ROLE:root-path-length-covers-the-intermediate");
